@@ -20,7 +20,7 @@ LEVEL_TEXT = ('Bounded model checking of the real start-up reconciliation, compl
               'finished, downgrades finished rows without a file to pending, and a further restart reports exactly the files present.')
 LEVEL_NOTE = ('Trusted: z3 (it only enumerates the choices here), the interpreter (every path replayed natively), and the table model: the five '
               'SQL statements of sync_missing_blobs / add_blobs / delete_blobs_from_db are matched textually and given their obvious meaning; a '
-              'changed statement is reported as unsupported (inconclusive), never as a pass.  NOT covered: sqlite itself, the other columns '
+              'changed statement is reported as unsupported (inconclusive), never as a pass.  The `real-sqlite` jobs run the same scenarios with the real SQLiteStorage on the real sqlite3 library (in-memory, real schema) instead of the table model.  NOT covered: the other columns '
               'of the table, stream/file tables, concurrent sessions.')
 ASSUMPTIONS = [
     'table model: "select blob_hash from blob where status=\'finished\'", "update blob set status=\'pending\' where blob_hash=?", '
@@ -29,7 +29,7 @@ ASSUMPTIONS = [
     'model blob directory: os.scandir / os.path.isfile / os.path.isdir / os.stat / os.remove over a dictionary name -> size',
     'a process death loses the in-memory manager and nothing else; database writes are atomic',
 ]
-OUTSIDE = ['sqlite and the real schema', 'stream and file tables', 'files with invalid names', 'torn blob files (a present file counts as complete: C01)']
+OUTSIDE = ['the table-model jobs do not run sqlite (the real-sqlite jobs do, on the real schema)', 'stream and file tables', 'files with invalid names', 'torn blob files (a present file counts as complete: C01)']
 
 HASHES = ['aa' * 48, 'bb' * 48, 'cc' * 48]
 BLOB_DIR = '/nonexistent-symvm-model-fs/blobfiles'
